@@ -112,6 +112,85 @@ class C01(HistProp):
         return (s["replayed_expunge"] + s["view_grew"]) >= 1 and s["flush_compares"] >= 1 and s["others_to_be_told_expunge"] + s["delivered_msgs"] + s["copied_msgs"] >= 1
 
 
+# ---------------------------------------------------------------- scheduled tier
+# Concurrent command sets (the ones C10 uses, plus sets aimed at updates that
+# are queued for a session while its own command is in progress) run under the
+# deterministic scheduler; the always-on view monitor of every rig session
+# (EXISTS never shrinks the view, EXPUNGE/FETCH name positions inside it) is the
+# oracle.  Reported here because what it decides is C01's statement.
+SCHED_SETS = [
+    # MOVE into the mailbox the mover has selected; other sessions watching
+    [("INBOX", ["UID MOVE 1:2 INBOX", "NOOP"]), ("INBOX", ["NOOP", "NOOP"])],
+    [("INBOX", ["UID MOVE 2:3 other", "NOOP"]), ("INBOX", ["UID STORE 1:5 +FLAGS (\\Flagged)", "NOOP"]), ("INBOX", ["NOOP"])],
+    [("INBOX", ["UID MOVE 1:3 other"]), ("other", ["UID MOVE 1:2 INBOX", "NOOP"]), ("INBOX", ["UID FETCH 1:* (FLAGS)", "NOOP"])],
+    [("INBOX", ["EXPUNGE", "NOOP"]), ("INBOX", ["APPEND INBOX", "NOOP"]), ("INBOX", ["UID STORE 1:* +FLAGS (kwx)", "NOOP"])],
+    [("INBOX", ["UID EXPUNGE 2", "UID FETCH 1:* (FLAGS)"]), ("INBOX", ["UID COPY 1:* INBOX", "NOOP"]), ("INBOX", ["CHECK"])],
+    [("pop3", ["DELE 1", "DELE 2", "QUIT"]), ("INBOX", ["UID STORE 3:5 +FLAGS (\\Seen)", "NOOP"]), ("INBOX", ["NOOP", "UID FETCH 1:* (FLAGS)"])],
+]
+
+
+def run_sched_shard(spec):
+    import shutil
+    import tempfile
+    from collections import Counter
+
+    from .. import common
+    from ..common import Case, HELD, INCONCLUSIVE, VIOLATED
+    from ..gen import rng
+    from ..rig import run_case
+    from ..vloop import WallWatchdog, fifo_all_strategy, one_at_a_time_strategy, random_strategy
+    from . import c10
+
+    counts = Counter()
+    cases = []
+    scratch = spec["scratch"]
+    for k in spec["scripts"]:
+        rnd = rng(spec["seed"], "c01sched", k)
+        sets = SCHED_SETS + c10.FORCED
+        cmdset = sets[k] if k < len(sets) else c10.gen_set(rnd)
+        cmdset = [(w, list(c) + (["NOOP"] if w not in (None, "pop3") else [])) for w, c in cmdset]
+        ctx = {"script": k, "dir": None}
+        hashes = set()
+        witness = None
+        events = 0
+        for i in range(spec.get("nsched", 5)):
+            d = tempfile.mkdtemp(prefix="m", dir=scratch)
+            ctx["dir"] = d
+            holder = {}
+
+            async def main(loop):
+                holder["loop"] = loop
+                return await c10.one_run(loop, ctx, cmdset, "concurrent")
+
+            try:
+                strategy = fifo_all_strategy if i == 0 else rnd.choice([random_strategy, random_strategy, one_at_a_time_strategy])
+                sd = rnd.randrange(1 << 30)
+                res, fs, info = run_case(main, seed=sd, scheduled=True, wall_budget=60, strategy=strategy)
+            except WallWatchdog:
+                counts["sched_wall_watchdog"] += 1
+                continue
+            except Exception as e:  # harness trouble is never a verdict
+                counts["sched_harness_error"] += 1
+                continue
+            finally:
+                shutil.rmtree(d, ignore_errors=True)
+            counts["schedules"] += 1
+            events += info.get("view_events", 0)
+            counts["view_monitor_events"] += info.get("view_events", 0)
+            hashes.add(common.h(holder["loop"].trace))
+            if info.get("view_errors") and witness is None:
+                witness = {"kind": "view-monitor", "detail": str(info["view_errors"][:4]), "commands": cmdset, "schedule": list(holder["loop"].trace)[:200], "seed": sd, "strategy": strategy.__name__, "data": {}}
+        counts["distinct_schedules"] += len(hashes)
+        sample = {"commands": cmdset, "distinct_schedules": len(hashes), "view_monitor_events": events}
+        if witness:
+            cases.append(Case.make(f"sched{k}", VIOLATED, spec=dict(spec, scripts=[k]), nontrivial=True, key=common.h(cmdset), sample=sample, witness=witness))
+        elif not hashes:
+            cases.append(Case.make(f"sched{k}", INCONCLUSIVE, spec=dict(spec, scripts=[k]), reason="no schedule completed", sample=sample))
+        else:
+            cases.append(Case.make(f"sched{k}", HELD, spec=dict(spec, scripts=[k]), nontrivial=len(hashes) > 1 and events > 0, key=common.h(cmdset), sample=sample))
+    return {"cases": cases, "counts": dict(counts)}
+
+
 hp = C01()
 plan, run_shard, replay_specs, finish = module_api(
     hp, quick=160, thorough=6000,
@@ -120,3 +199,20 @@ plan, run_shard, replay_specs, finish = module_api(
           "(NOOP/CHECK/IDLE) against the server's message list was made; distinct = hash of the operation sequence with numbers abstracted"),
     floors={"flush_compares": 40, "replayed_expunge": 20, "replayed_exists": 20, "full_view_compares": 20},
 )
+
+_plan_hist, _run_hist = plan, run_shard
+
+
+def plan(tier, seed, scale):
+    specs = _plan_hist(tier, seed, scale)
+    n = int((32 if tier == "quick" else 600) * scale)
+    shards = 8 if tier == "quick" else 16
+    for s in range(shards):
+        specs.append({"prop": PROP, "tier": tier, "seed": seed, "shard": 100 + s, "mode": "sched", "scripts": list(range(n))[s::shards], "nsched": 5 if tier == "quick" else 25})
+    return specs
+
+
+def run_shard(spec):
+    if spec.get("mode") == "sched":
+        return run_sched_shard(spec)
+    return _run_hist(spec)
